@@ -23,6 +23,7 @@ package vsched
 import (
 	"fmt"
 	"runtime"
+	"sync"
 	"time"
 )
 
@@ -202,6 +203,14 @@ func (s *Sched) threadMain(t *Thread, ready *gate, body func()) {
 	body()
 }
 
+// execFence orders EXECUTIONS, not threads: every thread releases it when it ends and the explorer acquires it
+// before it starts the next execution. In the race build this is the only happens-before edge the scheduler itself
+// creates (the hand-offs are invisible spins); without it the detector would pair an access made by a finished
+// thread of an earlier execution with an access of the next execution - two runs of the scenario that never
+// overlap - and report interpreter tables that are written before the routines start (defun in the main thread)
+// as racing. Inside one execution it orders nothing that matters: a thread acquires it only when it has ended.
+var execFence sync.Mutex
+
 //go:norace
 func (s *Sched) threadExit(t *Thread) {
 	if rec := recover(); rec != nil {
@@ -209,6 +218,8 @@ func (s *Sched) threadExit(t *Thread) {
 			t.Panic = rec
 		}
 	}
+	execFence.Lock()
+	execFence.Unlock() //nolint:staticcheck // release edge only
 	// a thread that dies holding a mutex leaves it held (as in real Go)
 	t.done = true
 	t.parked = false
@@ -342,6 +353,8 @@ func (s *Sched) Run(main func()) {
 	}
 	active = s
 	defer s.deactivate()
+	execFence.Lock()
+	execFence.Unlock() //nolint:staticcheck // acquire edge: everything earlier executions did happens before this one
 	t0 := s.spawn(main)
 	s.last = t0
 	for {
